@@ -26,8 +26,8 @@ use crate::{
     expression::Expression,
     instruction::{
         CalibrationDefinition, Capture, Delay, Fence, FrameIdentifier, Gate, Instruction,
-        MeasureCalibrationDefinition, Measurement, Pulse, Qubit, RawCapture, SetFrequency,
-        SetPhase, SetScale, ShiftFrequency, ShiftPhase,
+        MeasureCalibrationDefinition, Measurement, Pulse, Qubit, RawCapture, Reset, SetFrequency,
+        SetPhase, SetScale, ShiftFrequency, ShiftPhase, SwapPhases,
     },
 };
 
@@ -311,17 +311,31 @@ fn substitute_qubit_variables(
         | Instruction::Fence(Fence { qubits }) => {
             // Swap all qubits for their concrete implementations
             for qubit in qubits {
-                match qubit {
-                    Qubit::Variable(name) => {
-                        if let Some(expansion) = qubit_expansions.get(name) {
-                            *qubit = expansion.clone();
-                        }
-                    }
-                    Qubit::Fixed(_) | Qubit::Placeholder(_) => {}
-                }
+                substitute_qubit_variable(qubit, qubit_expansions);
+            }
+        }
+        Instruction::Measurement(Measurement { qubit, .. })
+        | Instruction::Reset(Reset { qubit: Some(qubit) }) => {
+            substitute_qubit_variable(qubit, qubit_expansions);
+        }
+        Instruction::SwapPhases(SwapPhases { frame_1, frame_2 }) => {
+            for qubit in frame_1.qubits.iter_mut().chain(frame_2.qubits.iter_mut()) {
+                substitute_qubit_variable(qubit, qubit_expansions);
             }
         }
         _ => {}
+    }
+}
+
+/// Replace `qubit` by its concrete value if it is one of the calibration's qubit variables.
+fn substitute_qubit_variable(qubit: &mut Qubit, qubit_expansions: &HashMap<&String, Qubit>) {
+    match qubit {
+        Qubit::Variable(name) => {
+            if let Some(expansion) = qubit_expansions.get(name) {
+                *qubit = expansion.clone();
+            }
+        }
+        Qubit::Fixed(_) | Qubit::Placeholder(_) => {}
     }
 }
 
